@@ -567,6 +567,40 @@ func (e *env) afterQuiescenceChecks(s *session) {
 	e.modelStates[e.model.StateHash()] = true
 }
 
+// implDangling lists the installed entries (RIBContents) whose group / next-hops are not installed.
+func (e *env) implDangling() []string {
+	snap := e.implSnapshot()
+	if snap == nil {
+		return nil
+	}
+	var keys []Key
+	for k := range snap {
+		keys = append(keys, k)
+	}
+	sortKeys(keys)
+	var out []string
+	need := func(from Key, k Key) {
+		if _, ok := snap[k]; !ok {
+			out = append(out, fmt.Sprintf("%s -> %s", from, k))
+		}
+	}
+	for _, k := range keys {
+		switch t := snap[k].(type) {
+		case *aftpb.Afts_NextHopGroupKey:
+			for _, nh := range t.GetNextHopGroup().GetNextHop() {
+				need(k, Key{NI: k.NI, Kind: KNH, ID: nh.GetIndex()})
+			}
+		case *aftpb.Afts_Ipv4EntryKey:
+			need(k, Key{NI: orStr(t.GetIpv4Entry().GetNextHopGroupNetworkInstance().GetValue(), k.NI), Kind: KNHG, ID: t.GetIpv4Entry().GetNextHopGroup().GetValue()})
+		case *aftpb.Afts_Ipv6EntryKey:
+			need(k, Key{NI: orStr(t.GetIpv6Entry().GetNextHopGroupNetworkInstance().GetValue(), k.NI), Kind: KNHG, ID: t.GetIpv6Entry().GetNextHopGroup().GetValue()})
+		case *aftpb.Afts_LabelEntryKey:
+			need(k, Key{NI: orStr(t.GetLabelEntry().GetNextHopGroupNetworkInstance().GetValue(), k.NI), Kind: KNHG, ID: t.GetLabelEntry().GetNextHopGroup().GetValue()})
+		}
+	}
+	return out
+}
+
 func diffIDs(a, b []uint64) []uint64 {
 	in := map[uint64]bool{}
 	for _, x := range b {
